@@ -31,7 +31,19 @@ func verifHarnessC16() {
 	vOnlyLockFileTouched(from, "C16.rejected-open-touched-directory")
 	verifAssert(a.Put(kp.keys[0], []byte{2}) == nil, "C16.put2-err")
 	verifAssert(a.Close() == nil, "C16.close-err")
-	switch verifChoice("scenario", 3) {
+	switch verifChoice("scenario", 4) {
+	case 3:
+		// a stale handle closed again while a newer handle owns the directory must not let a third one in
+		b2, err := Open(opts)
+		verifAssert(err == nil, "C16.open-after-close-refused")
+		_ = a.Close()
+		c, err := Open(o2)
+		verifAssert(err == ErrDatabaseIsUsing && c == nil, "C16.second-open-not-rejected-after-stale-close")
+		verifAssert(b2.Close() == nil, "C16.close6-err")
+		d, err := Open(opts)
+		verifAssert(err == nil, "C16.open-after-close-refused")
+		verifAssert(d.Close() == nil, "C16.close7-err")
+		verifReach("stale-close")
 	case 0:
 		// released by Close
 		c, err := Open(opts)
@@ -120,5 +132,31 @@ func verifHarnessC16Race() {
 	c, err := Open(opts)
 	verifAssert(err == nil, "C16.race-open-after-close-refused")
 	verifAssert(c.Close() == nil, "C16.race-close2-err")
+	verifReach("done")
+}
+
+// verifHarnessC16CloseRace: Close of the owner races with another Open; whoever wins, a third Open is rejected
+// while a handle is open, and accepted once everything is closed.
+func verifHarnessC16CloseRace() {
+	opts := verifOptions(verifDir("db"), "")
+	a, err := Open(opts)
+	verifAssert(err == nil, "C16.open-err")
+	var b *DB
+	var berr error
+	go func() { _ = a.Close() }()
+	go func() { b, berr = Open(opts) }()
+	verifJoin()
+	if berr != nil {
+		verifAssert(berr == ErrDatabaseIsUsing, "C16.race-unexpected-error")
+		verifReach("racing-open-lost")
+	} else {
+		verifReach("racing-open-won")
+		c, err := Open(opts)
+		verifAssert(err == ErrDatabaseIsUsing && c == nil, "C16.two-open-handles-after-close-race")
+		verifAssert(b.Close() == nil, "C16.race-close-err")
+	}
+	d, err := Open(opts)
+	verifAssert(err == nil, "C16.race-open-after-close-refused")
+	verifAssert(d.Close() == nil, "C16.race-close2-err")
 	verifReach("done")
 }
